@@ -120,4 +120,38 @@ def total (f : Nat → Bucket) : Nat → Nat
   | 0 => 0
   | k + 1 => total f k + (f k).entries.length
 
+/-! ### the source shapes this model was written against (tied to the Go source by
+    `Ties/C34`, regenerated facts in `Gen/DhtFacts.lean`) -/
+namespace Src
+def bucketSize : Nat := 16
+def nBuckets : Nat := 257
+def addSha : String := "1dff37e9c7a68ee28f0265dd3d91993e7adff1b779d1a6d2a247017ca6f5eedf"
+def addCalls : List String := ["logdist", "b.bump", "len", "b.addFront", "tab.nodeAddedHook", "tab.deleteFromReplacement", "append", "len", "copy", "len", "len"]
+def addIfs : List String := ["n.ID == tab.self.ID", "tab.nodeAddedHook != nil", "len(b.replacements) > bucketSize"]
+def stuffSha : String := "a7f39250d6cd1243be665139ecf522f3ee7126a14b66641fd5df884f9f4f4622"
+def stuffCalls : List String := ["logdist", "len", "append", "tab.nodeAddedHook"]
+def stuffIfs : List String := ["n.ID == tab.self.ID", "bucket.entries[i].ID == n.ID", "len(bucket.entries) < bucketSize", "tab.nodeAddedHook != nil"]
+def deleteSha : String := "c5ca19a8e545dc12d8949b4703ab63682fa0fe304adf660ca4c84b5cc589030e"
+def deleteCalls : List String := ["logdist", "append", "tab.deleteFromReplacement"]
+def deleteIfs : List String := ["bucket.entries[i].ID == node.ID"]
+def deleteReplaceSha : String := "c1df9a95815aa86da674f432a0dccbe3a2058e58957a325b473bc2cc7a18336d"
+def deleteReplaceCalls : List String := ["logdist", "len", "append", "tab.deleteFromReplacement", "len", "len", "len", "b.addFront"]
+def deleteReplaceIfs : List String := ["b.entries[i].ID == node.ID", "len(b.entries) < bucketSize && len(b.replacements) > 0"]
+def deleteFromReplacementSha : String := "ce0441c2dc292843bc02ddb466a077ae8bdade26fb1e4333bdafed2d1d089fc0"
+def deleteFromReplacementCalls : List String := ["len", "append"]
+def deleteFromReplacementIfs : List String := ["bucket.replacements[i].ID == node.ID"]
+def addFrontSha : String := "1343bb9a777e59f4e8ba49525be5d26000a0d329a7dcc0c993dc9cebdb08e737"
+def addFrontCalls : List String := ["append", "copy"]
+def addFrontIfs : List String := []
+def bumpSha : String := "fc13e02733a011f0ed9ce53283196ca9ca851b64318b4f0da2ffce2e6143a55e"
+def bumpCalls : List String := ["copy"]
+def bumpIfs : List String := ["b.entries[i].ID == n.ID"]
+def addCaseBump : String := "b.bump(n)"
+def addCaseBumpCalls : List String := []
+def addCaseFree : String := "len(b.entries) < bucketSize"
+def addCaseFreeCalls : List String := ["b.addFront", "tab.nodeAddedHook"]
+def addCaseFull : String := "default"
+def addCaseFullCalls : List String := ["tab.deleteFromReplacement", "append", "len", "copy", "len", "len"]
+end Src
+
 end BytomModel.Model.DHT
